@@ -38,6 +38,7 @@ def run(ctx: Ctx) -> Collector:
     _triple(ctx, c)
     _parse_attrs(ctx, c)
     _readers(ctx, c)
+    _entity_model(ctx, c)
     return c
 
 
@@ -482,3 +483,31 @@ def _readers(ctx: Ctx, c: Collector) -> None:
 
 from ..report import VIOLATED, DISCHARGED, UNKNOWN  # noqa: E402
 from ..terms import call  # noqa: E402
+
+
+def _entity_model(ctx: Ctx, c: Collector) -> None:
+    """Every Entity (children included) is classified with the ModelMock of its *own* type:
+    connect() validates attributes and decides trigger/persistent through entity.model_mock."""
+    qn = "mosaik.scenario.ModelMock._make_entities"
+    fi = ctx.func(qn)
+    s = ctx.summ(qn)
+    me = T.var(fi.params[0])
+    ents = [e for e in s.of_kind("call") if e.term[1] == T.glob("mosaik.scenario.Entity")]
+    efi = ctx.func("mosaik.scenario.Entity.__init__")
+    pos = efi.params.index("model_mock") - 1 if "model_mock" in efi.params else 3
+    pr = []
+    if not ents:
+        pr.append("no Entity is created")
+    for e in ents:
+        ev = e.iters[-1][1] if e.iters else None
+        arg = kwarg(e.term, "model_mock", pos)
+        want = ("idx", ("attr", ("attr", me, "_factory"), "models"), ("idx", ev, T.const("type"))) if ev is not None else None
+        if arg != want:
+            pr.append(f"entities get {T.show(arg)[:60]} as their model instead of the model of their own type (self._factory.models[e['type']]): "
+                      "a child entity of another type is validated and classified with the wrong attribute sets")
+    c.add("readers", qn, "Entity.model_mock is the mock of the entity's own type", VIOLATED if pr else DISCHARGED, "; ".join(sorted(set(pr))), fi.loc)
+    # Entity.__init__ stores it
+    es = ctx.summ("mosaik.scenario.Entity.__init__")
+    me2 = T.var(efi.params[0])
+    ok = any(e.term == ("store", ("attr", me2, "model_mock"), T.var("model_mock")) for e in es.of_kind("store"))
+    c.check(ok, "readers", "mosaik.scenario.Entity.__init__", "model_mock stored", "Entity does not store its model_mock", efi.loc)
